@@ -177,12 +177,17 @@ def directed() -> list[dict[str, Any]]:
     return out
 
 
+def _sync(desc: dict[str, Any], seed: int, i: int) -> dict[str, Any]:
+    from kv.world import syncify
+    return syncify(desc, random.Random(f'C06-sync-{seed}-{i}'))       # a share of the scenarios runs (some of) its handlers as threads
+
+
 def gen_cases(tier: str, seed: int):
     rng = random.Random(f'C06-{seed}')
     cases = [{'name': d['name'], 'desc': dict(d, latency=0.005)} for d in directed()]
     n = 500 if tier == 'quick' else 20000
     for i in range(n):
-        cases.append({'name': f'rnd{i}', 'desc': rnd_desc(rng, i)})
+        cases.append({'name': f'rnd{i}', 'desc': _sync(rnd_desc(rng, i), seed, i)})
     return cases
 
 
